@@ -130,6 +130,14 @@ def check(ctx):
         sc = scalls[0]
         arg = sc.args[0] if sc.args else None
         defs = reaching_assignments(prog, seedfn, arg.id, sc) if isinstance(arg, ast.Name) else [arg]
+        if isinstance(arg, ast.Attribute) and self_attr_of(arg):
+            # the seed parked in an attribute first (self._random_seed = int(seed); np.random.seed(self._random_seed)):
+            # the store that precedes the call in the same routine
+            from .common import pos as _pos7
+
+            sts = [(s_, v_) for t_, v_, s_, k_ in iter_stores(seedfn.node) if isinstance(t_, ast.Attribute) and canon(t_) == canon(arg) and _pos7(s_) < _pos7(sc)]
+            if sts:
+                defs = [max(sts, key=lambda z: _pos7(z[0]))[1]]
         from .common import deref_canon as _dc7
 
         okarg = bool(defs) and all("OPT[random_seed]" in canon(d) or "OPT[random_seed]" in _dc7(prog, seedfn, d) for d in defs)
